@@ -409,12 +409,17 @@ extern int total_queries;
  * null-terminated, and a pointer to it is recorded in 'dest'.  If an error
  * occurs then jumps to the specified label (onerr).  Only if execution
  * does not branch to 'onerr' may dest afterward point to memory that needs
- * to be managed (but dest may be NULL in any case).
+ * to be managed (but dest may be NULL in any case).  An SQL NULL is not an
+ * error: it sets dest to NULL.
  */
 #define GET_COLUMN_STRING(stmt, col, dest, onerr) do { \
+    /* to be determined before the value is requested as text, which may convert it */ \
+    int is_null = (sqlite3_column_type(stmt, col) == SQLITE_NULL); \
     const UChar *string_val = (const UChar *) sqlite3_column_text16(stmt, col); \
     if (string_val == NULL) { \
         dest = NULL; \
+        /* SQLite returns NULL also when it cannot allocate space for the text of a non-NULL value */ \
+        if (!is_null) { SET_RESULT(CIF_MEMORY_ERROR); goto onerr; } \
     } else { \
         size_t value_bytes = (size_t) sqlite3_column_bytes16(stmt, col); \
         int32_t value_chars; \
@@ -435,9 +440,13 @@ extern int total_queries;
  * to be managed (but dest may be NULL in any case).
  */
 #define GET_COLUMN_BYTESTRING(stmt, col, dest, onerr) do { \
+    /* to be determined before the value is requested as text, which may convert it */ \
+    int is_null = (sqlite3_column_type(stmt, col) == SQLITE_NULL); \
     const char *string_val = (const char *) sqlite3_column_text(stmt, col); \
     if (string_val == NULL) { \
         dest = NULL; \
+        /* SQLite returns NULL also when it cannot allocate space for the text of a non-NULL value */ \
+        if (!is_null) { SET_RESULT(CIF_MEMORY_ERROR); goto onerr; } \
     } else { \
         size_t value_bytes = (size_t) sqlite3_column_bytes(stmt, col); \
         dest = (char *) malloc(value_bytes + 1); \
